@@ -1369,6 +1369,14 @@ func (x *Exec) evalCall(c *ECall, env *SpecEnv) (Val, error) {
 		if err != nil {
 			return Val{}, err
 		}
+		if a.Loc != nil {
+			// pointer to a big.Int embedded by value (x.f.Int): its abstract reference
+			t, err := vc.locRef(a.Loc)
+			if err != nil {
+				return Val{}, err
+			}
+			return Val{T: vc.bigVal(env.st, t)}, nil
+		}
 		return Val{T: vc.bigVal(env.st, a.T)}, nil
 	case "min", "max":
 		if err := argN(2); err != nil {
